@@ -1,6 +1,246 @@
-"""C04 rules (placeholder: fail-closed until the rules are implemented)."""
-from ..loader import AnalysisError
+"""C04 - validation accepts exactly well-formed workflows and names the defect otherwise; no depth-bounded recursion."""
+import ast
+
+from ..index import FuncInfo, dotted, walk_no_nested, loc, ancestors
+from .c03 import CORE, _loops_over, rule_norm_path
+from ..astutil import truth_table
+from .persist import _calls
+
+ACTING = {"SCHED_SUBMIT", "SCHED_CANCEL", "SCHED_UNKNOWN", "LOCAL_SUBMIT", "LOCAL_CANCEL", "LOCAL_SHUTDOWN", "FS_DELETE", "STATE_MUT"}
+STATE_WRITERS = {"gwf.backends.base:TrackingBackend.close", "gwf.core:FileSpecHashes.close"}
+
+
+def _raises(idx, fn, node):
+    out = []
+    for n in ast.walk(node):
+        if isinstance(n, ast.Raise) and n.exc is not None:
+            e = n.exc.func if isinstance(n.exc, ast.Call) else n.exc
+            out.append(((idx.canon(e, fn.module) or dotted(e) or "").rsplit(".", 1)[-1], n))
+    return out
+
+
+def rule_validators(ctx, r):
+    idx = ctx.index
+    ft = idx.func(f"{CORE}:Graph.from_targets")
+    con = f"{ft.module.relpath}::{ft.qual}"
+    # (a) duplicate producers: raise under `path in provides`, before the store
+    dup_ok = False
+    for outer, inner in _loops_over(ft, "flattened_outputs"):
+        body = inner.body
+        for i, st in enumerate(body):
+            if isinstance(st, ast.If) and ast.unparse(st.test) == f"{inner.target.id} in provides":
+                kinds = [k for k, _n in _raises(idx, ft, st)]
+                store_after = any(isinstance(s, ast.Assign) and isinstance(s.targets[0], ast.Subscript) and dotted(s.targets[0].value) == "provides" for s in body[i + 1:])
+                store_before = any(isinstance(s, ast.Assign) and isinstance(s.targets[0], ast.Subscript) and dotted(s.targets[0].value) == "provides" for s in body[:i])
+                if kinds == ["FileProvidedByMultipleTargetsError"] and store_after and not store_before:
+                    dup_ok = True
+    r.check(dup_ok, con + "::multiple-providers", "`path in provides` -> FileProvidedByMultipleTargetsError, checked before the producer is stored",
+            "a file produced by two targets is not rejected with FileProvidedByMultipleTargetsError before the second producer overwrites the first", ft.where)
+    # (b) unresolved inputs
+    unres_ok = False
+    for outer, inner in _loops_over(ft, "flattened_inputs"):
+        for st in ast.walk(inner):
+            if isinstance(st, ast.If):
+                v = inner.target.id
+                kinds = [k for k, _n in _raises(idx, ft, st)]
+                atoms = {
+                    "unprovided": lambda e, v=v: ast.unparse(e) in (f"{v} in unresolved", f"{v} not in provides"),
+                    "exists": lambda e, v=v: ast.unparse(e) == f"fs.exists({v})",
+                }
+                tt = truth_table(st.test, atoms)  # keys: (exists, unprovided)
+                if kinds == ["UnresolvedInputError"] and tt == {(False, False): False, (False, True): True, (True, False): False, (True, True): False}:
+                    unres_ok = True
+    r.check(unres_ok, con + "::unresolved-input", "an input nobody provides and that does not exist on disk -> UnresolvedInputError",
+            "an input that no target produces and that does not exist is not rejected with UnresolvedInputError (or existing files / provided files are rejected)", ft.where)
+    # (c) cycle check called unconditionally at top level, after dependencies are complete, before the return
+    top = ft.node.body
+    call_i = ret_i = None
+    for i, st in enumerate(top):
+        if any(isinstance(c.func, (ast.Name, ast.Attribute)) and idx.canon(c.func, ft.module) == f"{CORE}.check_for_circular_dependencies" for c in _calls(st)) \
+                and isinstance(st, ast.Expr):
+            call_i = i
+            cc = st.value
+        if isinstance(st, ast.Return):
+            ret_i = i
+    ok = call_i is not None and ret_i is not None and call_i < ret_i
+    if ok:
+        args = [dotted(a) for a in cc.args] + [dotted(k.value) for k in cc.keywords]
+        ok = "dependencies" in args and "targets" in args
+    r.check(ok, con + "::cycle-check", "check_for_circular_dependencies(targets, dependencies) on every path before the graph is returned",
+            "graph construction can return without having run the cycle check over (targets, dependencies)", ft.where)
+    only_return = [n for n in walk_no_nested(ft.node) if isinstance(n, ast.Return)]
+    r.check(len(only_return) == 1, con + "::single-exit", "one return, after all three validators", "from_targets has an early return that bypasses validators", ft.where)
+
+    # the cycle checker itself
+    cf = idx.func(f"{CORE}:check_for_circular_dependencies")
+    ccon = f"{cf.module.relpath}::{cf.qual}"
+    p = cf.positional_params()
+    visitor = next(iter(cf.nested.values()), None)
+    if visitor is None:
+        r.violation(ccon, "the DFS visitor of the cycle check was not found", cf.where)
+        return
+    # all nodes are roots
+    nodes_expr = {}
+    for n in cf.node.body:
+        if isinstance(n, ast.Assign) and isinstance(n.targets[0], ast.Name):
+            nodes_expr[n.targets[0].id] = ast.unparse(n.value)
+    roots_ok = False
+    for n in cf.node.body:
+        if isinstance(n, ast.For):
+            it = ast.unparse(n.iter)
+            it = nodes_expr.get(it, it)
+            launches = [c for c in _calls(n) if isinstance(c.func, ast.Name) and c.func.id == visitor.name and dotted(c.args[0]) == dotted(n.target)]
+            guards = [a for c in launches for a in ancestors(c) if isinstance(a, ast.If) and a is not n]
+            guard_ok = all("fresh" in ast.unparse(g.test) or "== 0" in ast.unparse(g.test) for g in guards)
+            if it in (f"{p[0]}.values()", f"list({p[0]}.values())") and launches and guard_ok:
+                roots_ok = True
+    r.check(roots_ok, ccon + "::all-roots", "the DFS is started from every target that is still unvisited",
+            "the cycle search is not started from every target: a cycle that is not reachable from the chosen roots (e.g. one that no endpoint depends on) is accepted",
+            cf.where)
+    # colour discipline
+    v = visitor.positional_params()[0]
+    body = visitor.node.body
+    mark_started = [i for i, st in enumerate(body) if isinstance(st, ast.Assign) and ast.unparse(st.targets[0]) == f"state[{v}]" and dotted(st.value) == "started"]
+    mark_done = [i for i, st in enumerate(body) if isinstance(st, ast.Assign) and ast.unparse(st.targets[0]) == f"state[{v}]" and dotted(st.value) == "done"]
+    loops = [i for i, st in enumerate(body) if isinstance(st, ast.For) and ast.unparse(st.iter) == f"{p[1]}[{v}]"]
+    disc = bool(mark_started and mark_done and loops and mark_started[0] < loops[0] < mark_done[0])
+    raise_ok = rec_ok = False
+    if loops:
+        lp = body[loops[0]]
+        d = dotted(lp.target)
+        for st in ast.walk(lp):
+            if isinstance(st, ast.If):
+                t = ast.unparse(st.test)
+                if t == f"state[{d}] == started" and [k for k, _ in _raises(idx, cf, ast.Module(body=st.body, type_ignores=[]))] == ["CircularDependencyError"]:
+                    raise_ok = True
+                for br_test, br_body in ((st.test, st.body),):
+                    pass
+            if isinstance(st, ast.If):
+                # recursion under fresh (either in body of `== fresh` or orelse chain)
+                for sub in ast.walk(st):
+                    if isinstance(sub, ast.If) and ast.unparse(sub.test) == f"state[{d}] == fresh":
+                        if any(isinstance(c.func, ast.Name) and c.func.id == visitor.name and dotted(c.args[0]) == d for s in sub.body for c in _calls(s)):
+                            rec_ok = True
+    r.check(disc and raise_ok and rec_ok, ccon + "::three-colour", "started before / done after the dependency loop; started dependency -> CircularDependencyError; fresh -> visit",
+            "the three-colour discipline of the cycle search is broken (a back edge to a target on the current path must raise CircularDependencyError, "
+            "unvisited dependencies must be visited, the node is finished only after all its dependencies)", visitor.where)
+    # error kinds appear nowhere else
+    for cls, owner in (("CircularDependencyError", {cf.key, visitor.key}), ("FileProvidedByMultipleTargetsError", {ft.key}), ("UnresolvedInputError", {ft.key})):
+        others = []
+        for f in idx.functions.values():
+            if f.key in owner:
+                continue
+            for k, n in _raises(idx, f, ast.Module(body=f.node.body, type_ignores=[])):
+                if k == cls and idx.finfo_of(n) is f:
+                    others.append((f, n))
+        r.check(not others, f"src/gwf/core.py::{cls}", "raised only by its validator", f"{cls} is also raised in {[o[0].qual for o in others]}: the error no longer names the defect that applies",
+                loc(others[0][1], others[0][0].module) if others else "src/gwf/core.py:1")
+
+
+def rule_validate_before_acting(ctx, r):
+    idx = ctx.index
+    res = ctx.resolver
+    roots = res.command_roots()
+    for name in ("run", "cancel", "clean", "touch", "status", "info"):
+        root = roots.get(name)
+        if root is None:
+            continue
+        con = f"{root.module.relpath}::{root.qual}"
+        body = root.node.body
+        gi = None
+        for i, st in enumerate(body):
+            if any(isinstance(c.func, (ast.Name, ast.Attribute)) and (idx.canon(c.func, root.module) or "").endswith("Graph.from_targets") for c in _calls(st)):
+                gi = i
+                break
+        if gi is None:
+            r.violation(con + "::graph", f"`gwf {name}` does not build (and thereby validate) the dependency graph", root.where)
+            continue
+        bad = None
+        for st in body[:gi]:
+            for c in _calls(st):
+                for callee in res.callees(c, root, {}):
+                    if isinstance(callee, FuncInfo):
+                        _v, effs, _u = res.reach(callee)
+                        for e in effs:
+                            if e.kind in ACTING or (e.kind == "FS_WRITE" and e.finfo.key not in STATE_WRITERS):
+                                bad = (c, e)
+                for e in res.node_effects(c, root):
+                    if e.kind in ACTING or e.kind == "FS_WRITE":
+                        bad = (c, e)
+        r.check(bad is None, con + "::validate-first", "graph construction (validation) precedes every submit/cancel/delete/touch/state change",
+                f"`{ast.unparse(bad[0])[:60]}` runs before the workflow was validated and can {bad[1].kind} ({bad[1].detail} at {bad[1].where}): "
+                "an ill-formed workflow must change nothing" if bad else "", loc(bad[0], root.module) if bad else root.where)
+
+
+def rule_depth(ctx, r):
+    """No recursion whose depth follows dependency edges (workflows with thousands of chained targets must not crash)."""
+    idx = ctx.index
+    res = ctx.resolver
+    # call graph among repo functions
+    graph = {}
+    sites = {}
+    for f in idx.functions.values():
+        outs = set()
+        for n in walk_no_nested(f.node):
+            if isinstance(n, ast.Call):
+                for callee in res.callees(n, f, {}):
+                    if isinstance(callee, FuncInfo) and (callee.key == f.key or callee.outer is not None or f.outer is not None) and \
+                            (callee.module is f.module):
+                        outs.add(callee.key)
+                        sites.setdefault((f.key, callee.key), []).append(n)
+        graph[f.key] = outs
+
+    def reaches(a, b, seen=None):
+        seen = seen or set()
+        for x in graph.get(a, ()):
+            if x == b:
+                return True
+            if x not in seen:
+                seen.add(x)
+                if reaches(x, b, seen):
+                    return True
+        return False
+
+    reach_cmd = set()
+    for root in res.command_roots().values():
+        visited, _e, _u = res.reach(root)
+        reach_cmd |= {k[0] for k in visited}
+    ft = idx.func(f"{CORE}:Graph.from_targets")
+    n_rec = 0
+    for f in sorted(idx.functions.values(), key=lambda x: x.key):
+        if not reaches(f.key, f.key):
+            continue
+        n_rec += 1
+        # is the recursive argument drawn from a dependency edge?
+        along = None
+        for n in walk_no_nested(f.node):
+            if isinstance(n, ast.For):
+                it = ast.unparse(n.iter)
+                if "dependencies[" in it or "dependents[" in it:
+                    for c in _calls(n):
+                        if c.args and dotted(c.args[0]) == dotted(n.target):
+                            for callee in res.callees(c, f, {}):
+                                if isinstance(callee, FuncInfo) and (callee.key == f.key or reaches(callee.key, f.key)):
+                                    along = (n, c)
+        con = f"{f.module.relpath}::{f.qual}"
+        if along is None:
+            r.ok(con, "recursive, but not along dependency edges (bounded by container nesting)", f.where)
+        elif f.key in reach_cmd or (f.outer is not None and f.outer.key in reach_cmd) or f.key.startswith(f"{CORE}:check_for_circular"):
+            r.violation(con, f"recursion along dependency edges (`{ast.unparse(along[1])[:50]}` for each of `{ast.unparse(along[0].iter)[:50]}`): "
+                        "a chain of a few hundred to a few thousand targets exceeds Python's recursion limit and the command crashes with RecursionError",
+                        loc(along[1], f.module))
+        else:
+            r.info(con, "recursive along dependency edges but not reachable from any command")
+    if n_rec == 0:
+        r.ok("src/gwf", "no recursive function in the package", "src/gwf")
 
 
 def run(ctx):
-    raise AnalysisError("rules for C04 not implemented yet")
+    r1 = ctx.rule("R1", "the three validators run on every path of graph construction and raise the error kind that applies", min_instances=9)
+    rule_validators(ctx, r1)
+    r2 = ctx.rule("R2", "duplicate producers are detected across spellings (normalisation, shared with C03)", min_instances=3)
+    rule_norm_path(ctx, r2)
+    r3 = ctx.rule("R3", "every command validates the workflow before it submits, cancels, deletes or touches anything", min_instances=6)
+    rule_validate_before_acting(ctx, r3)
+    r4 = ctx.rule("R4", "no recursion whose depth is the dependency depth (graph building and commands terminate for any size)", min_instances=2)
+    rule_depth(ctx, r4)
